@@ -115,6 +115,9 @@ class CatModel:
             return True
         if name.endswith(']') and ('.cmd_group[' in name or '.cmd[' in name or '.var[' in name):
             return True
+        if name.endswith('.var'):
+            # descriptor domain: a command with var_num > 0 has a variable array (indexing is checked against var_num)
+            return True
         return False
 
     def region_name(self, region):
@@ -330,7 +333,15 @@ class CatModel:
             if region[0] in ('lit', 'dstr'):
                 s1.ev('ob', n, ob='const-write', ok=False, region=region)
             self.access_ok(region, off, width, s1, it, n, 'write')
-            s1.ev('wr', n, region=region, off=off, width=width, val=v, qt=self._q(qt))
+            e = s1.ev('wr', n, region=region, off=off, width=width, val=v, qt=self._q(qt), itype=it.prog.int_type(qt))
+            if region[0] == 'vdata':
+                # what is known about the owning variable and command when its storage is written
+                e['var_facts'] = self.snapshot_obj(region[1], s1)
+                e['cmd_facts'] = self.snapshot_obj('CMD', s1)
+                if is_lin(v):
+                    e['val_range'] = (s1.facts.lower(v, 2), s1.facts.upper(v, 2))
+                cap_ = self.region_cap(region, s1, it)
+                e['room'] = s1.facts.upper(off.addc(width).sub(cap_), 2)
             self.hook_write(region, off, Lin.c(width), v, s1, it, n)
             out.append(s1)
         return out
@@ -464,8 +475,13 @@ class CatModel:
                         out[k] = res.mem[loc]
         return out
 
-    def on_store_field(self, loc, v, s, it, n):
-        pass
+    def on_store_field(self, loc, v, s, it, n, e=None):
+        if e is not None and loc[-1] == 'write_size':
+            # what is known about the variable being decoded when its reported size is set
+            var = s.mem.get(('S', 'var'))
+            if isinstance(var, tuple) and var[0] in ('obj', 'oarr', 'oelem'):
+                name = var[1] if var[0] == 'obj' else ('%s[0]' % var[1] if var[0] == 'oarr' else '%s[%s]' % (var[1], lin_repr(var[2])))
+                e['var_facts'] = self.snapshot_obj(name, s)
 
     def array_len(self, loc):
         qt = self.loc_type(loc)
@@ -627,7 +643,10 @@ class CatModel:
             if dst[0] == 'mem':
                 # content: unknown bytes (kills a terminator inside the written range)
                 self.hook_write(dst[1], dst[2], ln, None, s1, it, n)
-                s1.ev('copy', n, dst=dst, src=src, len=ln)
+                sv = None
+                if isinstance(src, tuple) and src[0] == 'ref':
+                    sv = s1.mem.get(src[1])
+                s1.ev('copy', n, dst=dst, src=src, len=ln, srcval=sv)
             outs.append((s1, dst))
         return outs
 
